@@ -89,6 +89,8 @@ impl Default for ContextMode {
 #[derive(Clone, Default, Debug)]
 struct Context {
     ds_len: usize,
+    // data stack length when the context was opened
+    ds_open: usize,
     cs_len: usize,
     rs_len: usize,
     fs_len: usize,
@@ -576,6 +578,7 @@ impl State {
     fn context_open(&mut self, mode: ContextMode) -> Xresult {
         let mut tmp = Context {
             ds_len: 0,
+            ds_open: self.data_stack.len(),
             cs_len: self.code.len(),
             rs_len: self.return_stack.len(),
             fs_len: self.flow_stack.len(),
@@ -622,13 +625,16 @@ impl State {
                     self.dict.swap_remove(i);
                 }
             }
-            let is_building_fun = match self.flow_stack[prev.fs_len..].last() {
-                Some(Flow::Fun { .. }) => true,
-                _ => false,
-            };
-            if prev.mode != ContextMode::MetaEval || is_building_fun {
-                // emit meta-evaluation result
-                while self.data_stack.len() > self.ctx.ds_len {
+            // an enclosing meta block that is in the middle of a definition, builder or branch
+            // collects code instead of running it: the result has to become code as well
+            let parent_collects_code = self.flow_stack[prev.fs_len..].iter().any(|f| match f {
+                Flow::Enum { .. } => false,
+                _ => true,
+            });
+            if prev.mode != ContextMode::MetaEval || parent_collects_code {
+                // emit meta-evaluation result: what this block left, not what its parent had
+                let floor = self.ctx.ds_len.max(self.ctx.ds_open);
+                while self.data_stack.len() > floor {
                     let val = self.pop_data()?;
                     self.code_emit_value(val)?;
                 }
